@@ -162,6 +162,10 @@ def run(ctx):
             for j in range(0, N + 1):
                 v = f32(float(j * step))
                 pts += [v, nextf(v, True), nextf(v, False), f32(float((j + Fraction(1, 2)) * step))]
+                # clearly (but barely) below / above the boundary: outside the float window in which both neighbours are
+                # accepted, inside any 'nudge' of 1e-4 step -> must truncate to level j-1 / j
+                if j >= 1:
+                    pts += [f32(float((j - Fraction(5, 100000)) * step)), f32(float((j - Fraction(3, 100000)) * step)), f32(float((j + Fraction(5, 100000)) * step))]
             for off in range(0, len(pts), 64):
                 A.append({'p': p, 'clip': f32(clip), 'xs': pts[off:off + 64], 'kind': 'a:boundary'})
     for c in A:
@@ -197,6 +201,14 @@ def run(ctx):
             s_w = [0.0] * n
         bs = [0.0 if ctx.rng.random() < 0.1 else rand_mag(ctx.rng, -10, 6) for _ in range(n)]
         B.append({'s_a': s_a, 's_w': s_w, 'bs': bs, 'kind': 'b:' + ('allzero' if i % 7 == 0 else 'mixed')})
+    # ordinary-magnitude biases over a SMALL (but non-zero) scale product: the integer image exceeds 2^31 (it is a float
+    # holding an integer: must stay monotone and within half a step, no wrap-around)
+    for i in range(30 if ctx.quick else 300):
+        n = ctx.rng.randint(2, 8)
+        s_a = f32(2.0 ** ctx.rng.randint(-14, -11))
+        s_w = [f32(2.0 ** ctx.rng.randint(-12, -9)) for _ in range(n)]
+        bs = sorted(f32(ctx.rng.choice([-1, 1]) * 2.0 ** ctx.rng.randint(6, 12) * ctx.rng.choice([1.0, 1.5, 1.25])) for _ in range(n))
+        B.append({'s_a': s_a, 's_w': s_w, 'bs': bs, 'kind': 'b:beyond-int32'})
     for c in B:
         n = len(c['bs'])
         b = torch.tensor(c['bs'], dtype=torch.float32)
@@ -213,6 +225,9 @@ def run(ctx):
         oracle(all(v == 0 and f == 0 for v, f, s in zip(yi, yf, sb) if abs(s) <= 1e-9), 'bq-zero-scale-not-zero', info)
         oracle(all(abs(f - v * s) <= 1e-6 * max(abs(f), 1e-30) for f, v, s in zip(yf, yi, sb) if math.isfinite(v)), 'bq-fq-not-multiple-of-scale', info)
         oracle(all(abs(bv - f) <= abs(s) / 2 * (1 + 1e-5) + 2.0 ** -20 * abs(bv) for bv, f, s in zip(c['bs'], yf, sb) if abs(s) > 1e-7), 'bq-error-above-half-step', info)
+        if c['kind'] == 'b:beyond-int32':
+            oracle(all(abs(bv - f) <= 2.0 ** -20 * abs(bv) + abs(s) for bv, f, s in zip(c['bs'], yf, sb)), 'bq-error-above-half-step', info)
+            oracle(all((v > 0) == (bv > 0) for v, bv in zip(yi, c['bs']) if bv != 0), 'bq-sign-flipped', info)
     # monotonicity of the bias quantizer in b for a fixed positive scale
     for i in range(20 if ctx.quick else 200):
         s = abs(rand_mag(ctx.rng, -10, 0))
